@@ -530,4 +530,4 @@ def main(sess):
 
     if not only or 'e2e' in only:
         from drivers import e2e
-        e2e.family_for(sess, 'C15', quick_n=3)
+        e2e.family_for(sess, 'C15', quick_n=4)
